@@ -72,6 +72,11 @@ CLAIMS["C18"] = ("bounded symbolic execution (symx, symbolic bytes) of the real 
          "matching its header; export_image chooses a writer without exception for every listed filter list / colour space / bit depth and writes JPEG data unchanged; for ALL inline image data of up to 4 symbolic "
          "bytes not containing the end marker the data is captured completely and the following operators are read as without the image.",
          "4.C18")
+CLAIMS["C15"] = ("symbolic execution of the real CMapDB._load_data and ImageWriter._create_unique_image_name: CrossHair (symbolic str over all of Unicode, budgeted) plus symx (every name over an 8-letter hostile alphabet, exhaustive)",
+         "With the filesystem replaced by a recording stub whose exists() answers are symbolic, every path that a CMap name makes the library probe or open lies directly inside one of the two character-map "
+         "directories, and the path chosen for an exported image lies directly inside the output directory, was reported non-existing and is the unique first free candidate - confirmed over all paths for "
+         "every name of length <= 4 over the alphabet '/', '.', NUL, backslash, letters, ':', '~'; CrossHair searches names of length <= 5 over all code points within its time budget (no counterexample; not a confirmation).",
+         "4.C15")
 NA = {}
 def main():
     props = [json.loads(l) for l in open(os.path.join(ROOT, "properties.jsonl"))]
